@@ -774,3 +774,32 @@ Definition phdoc_case := (str * list (str * phspec) * str)%type.
 Definition check_phdoc (c : phdoc_case) : bool :=
   let '(content, d, tail) := c in
   str_eqb content (phdoc_bytes d tail) && ph_cleanb (phdoc_text d tail) && forallb ph_wfb (map snd d).
+
+(* 6. one rendered page, all comparisons at once (the byte strings are given once): type, class table, the
+   rendered content as text/marker pieces (cut at the recorded insert_component_dependencies_comment calls), the
+   marker-free text as text/placeholder pieces (None: no placeholder in it), the tags
+   _process_dep_declarations returned, and (JS stand-in, CSS stand-in, final bytes with the blocks replaced by the
+   stand-ins).  page_diag = sum of the bits of the comparisons that FAIL:
+     1 emit-side hypotheses (clean text, well-formed records)      2 placeholder hypotheses
+     4 model process <> _process_dep_declarations                  8 model assemble <> render_dependencies *)
+Definition page_case :=
+  (rtype * list (str * cinfo) * (list (str * (str * str * str * str)) * str) * option (list (str * phspec) * str)
+   * (list tok * list tok) * (str * str * str))%type.
+Definition page_hyp_emit (d : list (str * (str * str * str * str))) (tail : str) : bool :=
+  cleanb (doc_text d tail) && forallb wf_partb (doc_parts d).
+Definition page_hyp_ph (text : str) (ph : option (list (str * phspec) * str)) : bool :=
+  match ph with
+  | None => ph_cleanb text
+  | Some (pd, pt) => check_phdoc (text, pd, pt)
+  end.
+Definition page_diag (c : page_case) : N :=
+  let '(t, tbl, (d, tail), ph, (js, css), (js_s, css_s, final)) := c in
+  let text := doc_text d tail in
+  (if page_hyp_emit d tail then 0 else 1)
+  + (if page_hyp_ph text ph then 0 else 2)
+  + (match process tbl t (doc_bytes d tail) with
+     | Ok (c', dd) => if str_eqb c' text && list_eqb tok_eqb js (d_js dd) && list_eqb tok_eqb css (d_css dd) then 0 else 4
+     | _ => 4
+     end)
+  + (if str_eqb final (assemble t text js_s css_s) then 0 else 8).
+Definition check_page (c : page_case) : bool := page_diag c =? 0.
